@@ -119,6 +119,16 @@ theorem crop_source_idempotent (v : Nat → Nat → Bool) (rows cols r0 r1 c0 c1
 
 example : cropSource (fun i j => decide (1 ≤ i ∧ i ≤ 2 ∧ 2 ≤ j ∧ j ≤ 3)) 4 5 = some (1, 3, 2, 4) := by decide
 
+/-- (TRANSLATED) the polar transform behind `RichData.r / .t` (`coordinates.cart_to_polar`, read from the current source) is
+    `rho = hypot(x, y)`, `phi = arctan2(y, x)` — for every pair of functions `hyp` (symmetric) and `at2`, every `x, y`: the
+    argument ORDER of `arctan2` is what the obligation pins (a generic `at2` is not symmetric) -/
+theorem gen_polar_transform {F : Type} (hyp at2 : F → F → F) (hsym : ∀ a b, hyp a b = hyp b a) (x y : F) :
+    Generated.C12.polarRho hyp at2 x y = hyp x y ∧ Generated.C12.polarPhi hyp at2 x y = at2 y x := by
+  exact ⟨by first | rfl | exact hsym _ _, rfl⟩
+
+/-- non-vacuity: `max` is a symmetric `hyp` -/
+example : ∀ a b : Nat, max a b = max b a := Nat.max_comm
+
 /-- (TRANSLATED) the statistics the object reports are the util statistics of the same name applied to `self.data`:
     `Interferogram.pv / rms / Sa / std` hand `self.data` to `util.pv / rms / Sa / std` (codes 1, 2, 3, 4), so `gen_util_stats` and
     `util_stats_identities` are statements about what the properties return -/
